@@ -277,6 +277,9 @@ def opEscSets (impl : String) : Result :=
 def runLine (op : String) (impl : String) : Result :=
   match op.splitOn " " with
   | "escsets" :: _ => opEscSets impl
+  | "conc" :: _ =>
+    { model := some "equal",
+      fails := if impl == "equal" then [] else [s!"C19 concurrent-instances-interfere {impl}"] }
   | "lru" :: args => opLRU args impl
   | "enc" :: args => opEnc args impl
   | "parse" :: args => opParse args impl
